@@ -86,6 +86,9 @@ def run(S):
     rule_rbk_layer(S)
     rule_rbk_sizes(S)
     rule_end_layer(S)
+    # the validation primitive itself: a split sends the reader back to the root (shared with C06)
+    from checks.C06 import rule_eq
+    rule_eq(S)
 
 
 SHRINKS = ('erase', 'resize', 'pop_back', 'clear')
